@@ -35,6 +35,7 @@ THEOREMS = ["region_word_selects", "single_chip", "add_inv", "insert_all", "comp
             "exactB_iff", "nodupB_iff", "strictB_iff", "oracle_decides",
             "c09_selects_agree", "c09_selectsCore_agree", "c09_strictlyIncreasing_agree",
             "c09_regions_contract", "c09_compressOK", "subtree_insert", "emit_not_sorted"]
+THEOREMS += ['gen_get_region_for_chip']   # translator tie: generated function bodies = model (Props/C12Gen.lean)
 
 RULE = ("target sets built from shapes: sparse points (whole grid or a small window), aligned full blocks of side "
         "4/16/64 (and 256 in the thorough tier) for a random core set with 0-3 holes (a hole removes some or all cores "
